@@ -256,14 +256,27 @@ def connection_stream(ctx, ex, thorough):
                 dt = rng.choice([0.5, 1.0])
                 B = rng.choice([2, 3])
                 g = nb.gen(rng.randrange(2**31))
-                big = nb.build_connection(cc, dt, B)
+                # resized: the batched connection is built (and used for a step) at ANOTHER batch size, then brought to B through
+                # the public `batchsz` setter and cleared — anything cached per batch size must follow
+                resized = rep % 4 in (1, 2)
+                if resized:
+                    B0 = rng.choice([b0 for b0 in (1, 2, 4) if b0 != B])
+                    big = nb.build_connection(cc, dt, B0)
+                    with torch.no_grad():
+                        big((torch.rand(B0, *big.inshape, generator=g) < 0.5).to(torch.float64))
+                        _ = big.syncurrent, big.synspike
+                    big.batchsz = B
+                    big.clear()
+                else:
+                    big = nb.build_connection(cc, dt, B)
                 singles = []
                 for b in range(B):
                     c1 = nb.build_connection(dict(cc, wseed=cc["wseed"] + 1 + b), dt, 1)    # constructed with OTHER weights
                     copy_params(big, c1)
                     singles.append(c1)
-                case = {"stream": "connection", "class": kind, "cfg": cc, "dt": dt, "batch": B, "exact": exact}
+                case = {"stream": "connection", "class": kind, "cfg": cc, "dt": dt, "batch": B, "exact": exact, "resized_from": B0 if resized else None}
                 ex.count("connection", kind + ("+delay" if delayed else ""))
+                ex.count("connection-batch", "resized-by-setter" if resized else "constructed")
                 ex.count("comparison", "connection:" + ("torch.equal" if exact else "1e-12 on the reduced output"))
                 bad = None
                 xs = []
@@ -279,23 +292,33 @@ def connection_stream(ctx, ex, thorough):
                         x[int(torch.randint(0, B, (1,), generator=g))] = 0
                     xs.append(x)
                     with torch.no_grad():
-                        oB = big(x)
                         o1 = [c(x[b:b + 1]) for b, c in enumerate(singles)]
+                        try:
+                            oB = big(x)
+                            snapB = {**nb.snapshot({"c": big}), "x.synspike": big.synspike.detach().clone(),
+                                     "x.syncurrent": big.syncurrent.detach().clone()}
+                        except Exception as e:  # noqa: BLE001 - the batch-1 copies ran: a batched run that raises is not "the same result"
+                            add(ex, f"C11:connection:{kind}:batched-raises", f"{kind}{'+delay' if delayed else ''} batch {B}"
+                                f"{' (resized from ' + str(B0) + ' by the batchsz setter)' if resized else ''}: the batched connection raises "
+                                f"{type(e).__name__} at step {t} ({str(e)[:160]}) while its batch-1 copies run",
+                                dict(case, step=t, inputs=[v.tolist() for v in xs]))
+                            bad = (t, 0, "raises", "")
+                            break
                     ex.evaluations += 1
                     for b in range(B):
                         if oB[b:b + 1].shape != o1[b].shape or not torch.equal(oB[b:b + 1], o1[b]):
                             if not exact and oB[b:b + 1].shape == o1[b].shape and approx(oB[b:b + 1], o1[b], 1e-12):
                                 ex.count("rounding", "connection-output-within-1e-12")
                                 continue
-                            bad = (t, b, "output", f"{oB[b].flatten().tolist()[:6]} vs {o1[b].flatten().tolist()[:6]}")
+                            bad = (t, b, "output", (f"batched output has shape {tuple(oB.shape)}, batch-1 copies {tuple(o1[b].shape)}" if oB.shape[0] != B
+                                                    else f"{oB[b].flatten().tolist()[:6]} vs {o1[b].flatten().tolist()[:6]}"))
                             break
                     if not bad:
                         extra = lambda c: {"x.synspike": c.synspike.detach().clone(), "x.syncurrent": c.syncurrent.detach().clone()}
-                        d = compare_snapshots({**nb.snapshot({"c": big}), **extra(big)},
-                                              [{**nb.snapshot({"c": c}), **extra(c)} for c in singles], B)
+                        d = compare_snapshots(snapB, [{**nb.snapshot({"c": c}), **extra(c)} for c in singles], B)
                         if d:
                             bad = (t, d[1], d[0], d[2])
-                    if bad:
+                    if bad and bad[2] != "raises":
                         add(ex, f"C11:connection:{kind}:{cat(bad[2])}", f"{kind}{'+delay' if delayed else ''} batch {B}: sample {bad[1]} differs from its "
                             f"batch-1 copy at step {bad[0]}: {bad[2]}: {bad[3]}", dict(case, step=bad[0], sample=bad[1], entry=bad[2], inputs=[v.tolist() for v in xs]))
                         break
@@ -352,12 +375,20 @@ def layer_stream(ctx, ex, thorough):
                 copy_params(big.layer, n1.layer)
                 singles.append(n1)
             X = big.gen_inputs(g, T, rng.choice([0.3, 0.5, 0.7]))
+            # biclique: on some steps only ONE connection is driven (the other input keys are omitted), so the combine step sees a
+            # single connection output
+            if lk == "biclique" and len(cfg["conns"]) > 1 and idx % 2 == 1:
+                for t in range(T):
+                    if rng.random() < 0.4:
+                        keep = rng.randrange(len(cfg["conns"]))
+                        X[t] = [x if i == keep else None for i, x in enumerate(X[t])]
+                ex.count("layer-inputs", "biclique:some-steps-drive-one-connection-only")
             case = {"stream": "layer", "cfg": cfg, "batch": B, "steps": T, "exact": dy}
             bad, nsp = None, 0
             for t in range(T):
                 with torch.no_grad():
                     oB = big.step(X[t], adapt=False)
-                    o1 = [n1.step([x[b:b + 1] for x in X[t]], adapt=False) for b, n1 in enumerate(singles)]
+                    o1 = [n1.step([None if x is None else x[b:b + 1] for x in X[t]], adapt=False) for b, n1 in enumerate(singles)]
                 ex.evaluations += 1
                 nsp += sum(int(o.sum()) for o in oB)
                 for j, o in enumerate(oB):
@@ -374,7 +405,7 @@ def layer_stream(ctx, ex, thorough):
                 if bad:
                     add(ex, f"C11:layer:{lk}:{cat(bad[2])}", f"{lk} layer ({[c['kind'] for c in cfg['conns']]}, {[n['kind'] for n in cfg['neurons']]}) batch {B}: "
                         f"sample {bad[1]} differs from its batch-1 copy at step {bad[0]}: {bad[2]}: {bad[3]}",
-                        dict(case, step=bad[0], sample=bad[1], entry=bad[2], xseed=None, inputs=[[x.tolist() for x in xs] for xs in X]))
+                        dict(case, step=bad[0], sample=bad[1], entry=bad[2], xseed=None, inputs=[[None if x is None else x.tolist() for x in xs] for xs in X]))
                     break
             if nsp or bad or attempt == 3:
                 break
@@ -410,6 +441,11 @@ def trainer_stream(ctx, ex, thorough):
                 B = cfg["batch"]
                 tc = nb.trainer_cfg(rng, tk)
                 tc["reduction"] = "sum"
+                if "Kernel" in tk and rep % 2 == 1:
+                    # a user kernel whose sign depends on the spike-time difference: samples then contribute to ONE synapse with
+                    # opposite signs, which a reduce-before-split would cancel
+                    tc["kernel"] = "biphasic"
+                    ex.count("trainer-kernel", f"{tk}:biphasic")
                 if rep % 4 in (1, 2) and tk not in nb.NEEDS_DELAY:
                     # the trainer's delayed mode on a connection that really has delays (both are non-default; left to
                     # chance the combination is rare): presynaptic history is then read per sample through the selector
@@ -440,7 +476,7 @@ def trainer_stream(ctx, ex, thorough):
                     with torch.no_grad():
                         big.step(X[t], adapt=False)
                         for b, n1 in enumerate(singles):
-                            n1.step([x[b:b + 1] for x in X[t]], adapt=False)
+                            n1.step([None if x is None else x[b:b + 1] for x in X[t]], adapt=False)
                         if tk in nb.REWARDED:
                             # a (B,)-shaped signal is one reward per sample (broadcast over the synapse dims by the trainer)
                             trB(rew if per_sample_reward else float(rew[0]))
